@@ -1008,7 +1008,7 @@ pub fn checks() -> Vec<CheckDef> {
         CheckDef {
             id: "C09",
             level: "exploration",
-            runs_quick: 150_000,
+            runs_quick: 600_000,
             runs_thorough: 6_000_000,
             rule: "2-4 CloudServer clients over one in-memory object store each run a script of add-version (on the believed latest, or on a stale/unknown parent), chain walks with get_child_version (from nil or from the snapshot), add-snapshot and get-snapshot; every object-store request and every list page is a scheduling point of the seeded scheduler, listing order is by name or a seeded permutation, page size 1/2/3/unbounded. Invoke/return are stamped with a global event number and every compare-and-swap of `latest` is logged. Oracles: one accepted child per parent and each accepted on the then-latest; every accepted version becomes part of the chain; every version served is the chain child of the requested parent with the submitted bytes and was committed before the reply; `no such version` only if no child had been committed before the call began; a rejection names a version that was latest during the call and is not spurious; a fresh client finally walks the whole chain. Non-trivial: some compare-and-swap lost or some add was rejected; distinct = distinct trace hash.",
             gen: gen_c09,
@@ -1021,7 +1021,7 @@ pub fn checks() -> Vec<CheckDef> {
         CheckDef {
             id: "C10",
             level: "exploration",
-            runs_quick: 100_000,
+            runs_quick: 600_000,
             runs_thorough: 4_000_000,
             rule: "as C09 plus explicit cleanup runs by one or more clients at seeded moments, the natural maybe_cleanup path driven by seeded dice, simulated time jumping by days to more than a year between operations (object creation times and the retention test read the simulated clock), and cleanups stopped after a seeded number of their requests. After every ended cleanup and at the end, read independently from the object map: walking back from `latest` through the version objects must reach the first version, or stop at a version covered by a retained snapshot; every retained snapshot of a chain version must still be a usable starting point; a fresh client must get from the snapshot (or nil) to `latest`. Non-trivial: at least one cleanup run ended; distinct = distinct trace hash.",
             gen: gen_c10,
